@@ -13,7 +13,9 @@ RULE_TEXT = ("C02-R: on every loop-body path of Interface::run the path variable
              "faulty message), the unit's parent header after an unterminated compound unit, unchanged after a common "
              "command; C02-P: on every Ok path of compound_command_program_header the returned header is the parent of "
              "the returned node, starting from the root iff a leading colon was present (loop invariant, inductive); "
-             "common headers return no path and look up under the root; C02-S: every future is awaited in place and the "
+             "common headers return no path and look up under the root; C02-F: on every accepting path of parse the returned "
+             "call's `terminated` flag is true exactly when the consumer of the unit's end took a newline (false for `;`) "
+             "and its `header` is the path the header parser returned; C02-S: every future is awaited in place and the "
              "crate defines no Future/poll machinery.")
 
 COMPOUND = "microscpi::parser::compound_command_program_header"
@@ -32,6 +34,9 @@ def run(ck):
     rule_P(ck, lib)
     rule_H(ck, lib)
     rule_S(ck, lib)
+    import parsefields
+    import skeleton
+    parsefields.check(ck, lib, skeleton.Skeleton(ck, lib), "C02-F", ("terminated", "header"))
 
 
 # ---------------------------------------------------------------- C02-R
